@@ -718,9 +718,11 @@ void File::uncompressedFile2ReadWriteQueue() {
     }
 
     int32_t tmp = 0;
-    if (obj->calculateObjectSize() > ohb.objectSize) {
+    /* a declared size below one base header is bogus: never seek back into or before the header just read */
+    const uint32_t declaredSize = ohb.objectSize > ohb.calculateHeaderSize() ? ohb.objectSize : ohb.calculateHeaderSize();
+    if (obj->calculateObjectSize() > declaredSize) {
         // we are about to read too much data
-        tmp = ohb.objectSize - obj->calculateObjectSize();
+        tmp = declaredSize - obj->calculateObjectSize();
     }
 
     /* read object */
